@@ -642,6 +642,8 @@ def oracle(cat, op, obs, facts):
         if lane == 'c09.when':
             if facts.get('match') not in ('1', '-') and want in ('zero', 'same'):
                 return f'When({boxes[0] or "nil"}) does not match the same value passed as argument (match={facts.get("match")})'
+            if facts.get('near') == '1' and want == 'same':
+                return f'When({boxes[0]}) also answers a call whose argument differs in its lowest bit / by one appended byte: the value was altered before comparison'
             return None
         ty, fk, shape = f[1].split('/')
         if ty != outs[0]:
